@@ -21,10 +21,12 @@
 (*           1e-6 sizes)                                                   *)
 (*   outcome "ok" | "timeout" (watchdog) | "exception" (exc = class name)  *)
 (*   shapes  [{n, asvector, squeeze, core, shape}] shape probes            *)
+(*   wd      indices of the variants whose whole-box call hit the watchdog *)
 (*   pts     scan: {t, o, f}   o = doubled global lattice observer,        *)
 (*                 f[v] = finite mask of variant v: bit 3*i+j set iff      *)
 (*                 component j of field i is finite; -1 = the call with    *)
-(*                 this observer alone hit the watchdog                    *)
+(*                 this observer alone hit the watchdog, -2 = it raised    *)
+(*                 (exception class names in the scene field exc)          *)
 (*           far:  {t, m, k, f}  observer = m * 10^k lattice units (m a    *)
 (*                 small integer vector, k >= 1), local frame              *)
 (***************************************************************************)
@@ -56,16 +58,20 @@ PointOut(s, b, p) ==
        [bad |-> IF ~FarOK(p) THEN {<<p.t, "premise-far", "MACHINERY", Ctx(s, "far", "-", p.k, {}, {}, "")>>}
                 ELSE IF \A v \in DOMAIN p.f : p.f[v] = Full(s) THEN {}
                 ELSE IF \E v \in DOMAIN p.f : p.f[v] = -1 THEN {<<p.t, "timeout", Prop(s), Ctx(s, "far", FarDir(p.m), p.k, {}, {"exact"}, "")>>}
+                ELSE IF \E v \in DOMAIN p.f : p.f[v] = -2 THEN {<<p.t, "exception", Prop(s), Ctx(s, "far", FarDir(p.m), p.k, {}, {"exact"}, s.exc)>>}
                 ELSE {<<p.t, "nonfinite", Prop(s), Ctx(s, "far", FarDir(p.m), p.k, UNION {BadFields(s, p.f[v]) : v \in DOMAIN p.f}, {"exact"}, "")>>},
         cover |-> {<<s.body.cls, "far", FarDir(p.m), p.k>>}]
   ELSE LET xl == Local(s.pose, p.o)
            S == Sets(b, xl)
            tov == {v \in DOMAIN p.f : p.f[v] = -1}
-           badv == {v \in DOMAIN p.f : p.f[v] # Full(s) /\ p.f[v] # -1}
+           exv == {v \in DOMAIN p.f : p.f[v] = -2}
+           badv == {v \in DOMAIN p.f : p.f[v] # Full(s) /\ p.f[v] >= 0}
        IN [bad |-> (IF badv = {} \/ Singular(b, xl) THEN {}
                     ELSE {<<p.t, "nonfinite", Prop(s), Ctx(s, Locus15(b, xl, S), "-", 0, UNION {BadFields(s, p.f[v]) : v \in badv}, {s.vk[v] : v \in badv}, "")>>})
                    \cup (IF tov = {} THEN {}      \* a singular point may be non-finite, but the call must still return
-                         ELSE {<<p.t, "timeout", Prop(s), Ctx(s, Locus15(b, xl, S), "-", 0, {}, {s.vk[v] : v \in tov}, "")>>}),
+                         ELSE {<<p.t, "timeout", Prop(s), Ctx(s, Locus15(b, xl, S), "-", 0, {}, {s.vk[v] : v \in tov}, "")>>})
+                   \cup (IF exv = {} THEN {}
+                         ELSE {<<p.t, "exception", Prop(s), Ctx(s, Locus15(b, xl, S), "-", 0, {}, {s.vk[v] : v \in exv}, s.exc)>>}),
            cover |-> {<<s.body.cls, n, "-", 0>> : n \in S}]
 
 ShapeBad(s) == {<<s.t0 + i, "shape", Prop(s), Ctx(s, "-", "-", 0, {}, {}, "probe")>> :
@@ -78,7 +84,9 @@ SceneOut(s) ==
   ELSE IF s.outcome = "exception" THEN [bad |-> {<<s.t0, "exception", Prop(s), Ctx(s, "-", "-", 0, {}, {}, s.exc)>>}, cover |-> {}, n |-> 1]
   ELSE LET b == Prep(s.body)
            r == [i \in 1..Len(s.pts) |-> PointOut(s, b, s.pts[i])] \o <<>>
-       IN [bad |-> ShapeBad(s) \cup UNION {r[i].bad : i \in 1..Len(r)},
+           \* whole-box calls that did not return within the watchdog limit (variant indices in s.wd)
+           hung == {<<s.t0 + 50 + i, "timeout", Prop(s), Ctx(s, "whole-box", "-", 0, {}, {s.vk[s.wd[i]]}, "")>> : i \in DOMAIN s.wd}
+       IN [bad |-> ShapeBad(s) \cup hung \cup UNION {r[i].bad : i \in 1..Len(r)},
            cover |-> UNION {r[i].cover : i \in 1..Len(r)}, n |-> Len(r)]
 
 \* one LET so that the trace is read once and every scene is evaluated exactly once
